@@ -19,6 +19,10 @@ mod c05;
 #[path = "/verif/harness/daemon/c07.rs"]
 mod c07;
 
+#[cfg(verif_c07)]
+#[path = "/verif/harness/daemon/c07b.rs"]
+mod c07b;
+
 #[cfg(verif_c08)]
 #[path = "/verif/harness/daemon/c08.rs"]
 mod c08;
